@@ -17,7 +17,7 @@ namespace FatVerif
 /-- **`slice_write_mirrors`**: a successful `DiskSlice::write` returns `n = min bs.length (size - offset)` and, if
     `n > 0`, appends exactly: `bs.take n` at `beginOff + offset + i * size` for `i = 0, …, mirrors-1` (oldest first),
     with — when the slice goes through `FsIoAdapter` and the dirty flag is not set yet — the one status-byte record
-    right after the first of them. The offset advances by `n` and stays inside the slice. -/
+    BEFORE the first of them (fix f695ddf: `FsIoAdapter::write` marks the volume dirty before its first write). The offset advances by `n` and stays inside the slice. -/
 theorem slice_write_mirrors (s : DiskSlice) (bs : List Nat) (d : Dev) (hle : s.offset ≤ s.size) (hmir : 0 < s.mirrors)
     (hdev : s.beginOff + s.mirrors * s.size ≤ d.img.size) {n : Nat} {s' : DiskSlice} {d' : Dev}
     (hr : run (s.write bs) d = (.ok (n, s'), d')) :
@@ -25,7 +25,7 @@ theorem slice_write_mirrors (s : DiskSlice) (bs : List Nat) (d : Dev) (hle : s.o
     (n = 0 → d' = d) ∧
     (n > 0 → ∃ k, s.mirrors = k + 1 ∧ d'.fs = fsAfter s.viaFs d.fs ∧
       d'.log = mirrorLog (s.beginOff + s.offset) s.size (bs.take n) k 1 ++
-        (statusExtra s.viaFs d.fs ++ .write (s.beginOff + s.offset) (bs.take n) :: d.log)) := by
+        (.write (s.beginOff + s.offset) (bs.take n) :: (statusExtra s.viaFs d.fs ++ d.log))) := by
   unfold DiskSlice.write at hr
   dsimp only at hr
   split at hr
@@ -204,7 +204,7 @@ theorem slice_writeAll_ok (s : DiskSlice) (bs : List Nat) (hne : bs ≠ []) (d :
     s.offset + bs.length ≤ s.size ∧ s' = { s with offset := s.offset + bs.length } ∧
     ∃ k, s.mirrors = k + 1 ∧ d'.fs = fsAfter s.viaFs d.fs ∧
       d'.log = mirrorLog (s.beginOff + s.offset) s.size bs k 1 ++
-        (statusExtra s.viaFs d.fs ++ .write (s.beginOff + s.offset) bs :: d.log) := by
+        (.write (s.beginOff + s.offset) bs :: (statusExtra s.viaFs d.fs ++ d.log)) := by
   have hlen : bs.length ≠ 0 := by
     cases bs with
     | nil => exact absurd rfl hne
@@ -269,17 +269,17 @@ theorem run_slice_seek (s : DiskSlice) (p : SeekFrom) (d : Dev) {r d'} (hr : run
   · simp only [run] at hr; cases hr; exact ⟨rfl, fun _ _ h => by cases h⟩
 
 /-- what a mirrored FAT entry update looks like in the write records: `data` at relative offset `rel` of every copy
-    (copy 0 first), plus the status record `FsIoAdapter` may owe after the first -/
+    (copy 0 first), preceded by the status record `FsIoAdapter` may owe -/
 def MirroredWrite (s0 : DiskSlice) (d d' : Dev) : Prop :=
   ∃ (rel : Nat) (data : List Nat) (k : Nat), data ≠ [] ∧ rel + data.length ≤ s0.size ∧ s0.mirrors = k + 1 ∧
     d'.fs = fsAfter s0.viaFs d.fs ∧
     d'.writesOf = mirrorLog (s0.beginOff + rel) s0.size data k 1 ++
-      (statusExtra s0.viaFs d.fs ++ .write (s0.beginOff + rel) data :: d.writesOf)
+      (.write (s0.beginOff + rel) data :: (statusExtra s0.viaFs d.fs ++ d.writesOf))
 
 theorem writesOf_mirror (off size : Nat) (data : List Nat) (k i : Nat) (st : List LogItem)
     (hst : ∀ it ∈ st, it.isWrite = true) (o : Nat) (b : List Nat) (l : List LogItem) :
-    (mirrorLog off size data k i ++ (st ++ .write o b :: l)).filter LogItem.isWrite =
-      mirrorLog off size data k i ++ (st ++ .write o b :: l.filter LogItem.isWrite) := by
+    (mirrorLog off size data k i ++ (.write o b :: (st ++ l))).filter LogItem.isWrite =
+      mirrorLog off size data k i ++ (.write o b :: (st ++ l.filter LogItem.isWrite)) := by
   have h1 : (mirrorLog off size data k i).filter LogItem.isWrite = mirrorLog off size data k i := by
     apply List.filter_eq_self.mpr
     intro it hit
@@ -327,7 +327,7 @@ theorem seek_writeAll_mirrored {s0 s : DiskSlice} (hs : SliceInv s0 s) (hmir : 0
     refine ⟨⟨t, data, k, hne, hfit, by rw [← hs1w.2.2.1]; exact hk, by rw [hfs, hfs0], ?_⟩, ?_⟩
     · unfold Dev.writesOf
       rw [hlog, writesOf_mirror _ _ _ _ _ _ (statusExtra_isWrite _ _), hfs0]
-      show _ = _ ++ (_ ++ _ :: d0.writesOf)
+      show _ = _ ++ (_ :: (_ ++ d0.writesOf))
       rw [← hw0]; rfl
     · rw [hs']
       exact ⟨hs1w.1, hs1w.2.1, hs1w.2.2.1, hs1w.2.2.2.1, by show s1.offset + data.length ≤ s1.size; rw [hs1w.2.1, hs1w.2.2.2.2]; exact hfit⟩
@@ -383,6 +383,22 @@ theorem fat_set_mirrored {s0 s : DiskSlice} (hs : SliceInv s0 s) (hmir : 0 < s0.
       · exact seek_writeAll_mirrored hs2 hmir _ (bytesLe32 _) (by simp [bytesLe32]) d d2 hsw.2 hfs
           (by rw [run_img_size _ _ _ _ h3]; exact hdev) _ (fun _ _ => rfl) h4
     · cases he
+
+/-- **`fat_set_marks_dirty_first`** (fix f695ddf): a successful `Table.set` through `FsIoAdapter` on a volume whose
+    dirty flag is not set yet: the status-byte record PRECEDES the entry bytes of copy 0 (before the fix it followed
+    them), and the flag is set afterwards -/
+theorem fat_set_marks_dirty_first {s0 s : DiskSlice} (hs : SliceInv s0 s) (hv : s0.viaFs = true) (hmir : 0 < s0.mirrors)
+    (ft : FatType) (c : Nat) (v : FatValue) (d : Dev) (hdev : s0.beginOff + s0.mirrors * s0.size ≤ d.img.size)
+    (hclean : d.fs.curDirty = false) {s' : DiskSlice} {d' : Dev}
+    (hr : run (Table.set DiskSlice.strm ft s c v) d = (.ok s', d')) :
+    d'.fs.curDirty = true ∧
+    ∃ (rel : Nat) (data : List Nat) (k : Nat), data ≠ [] ∧ rel + data.length ≤ s0.size ∧ s0.mirrors = k + 1 ∧
+      d'.writesOf = mirrorLog (s0.beginOff + rel) s0.size data k 1 ++
+        (.write (s0.beginOff + rel) data :: statusWrite d.fs true :: d.writesOf) := by
+  obtain ⟨⟨rel, data, k, hne, hfit, hk, hfs, hw⟩, _⟩ := fat_set_mirrored hs hmir ft c v d hdev hr
+  rw [hv] at hfs hw
+  refine ⟨by rw [hfs]; exact fsAfter_dirty _, rel, data, k, hne, hfit, hk, ?_⟩
+  rw [hw, statusExtra_clean hclean]; rfl
 
 /-! ## copies stay equal
 
@@ -453,26 +469,25 @@ theorem replay_outside (g : Nat → Nat) (p : Nat) : ∀ (l : List LogItem),
       exact ih (fun off' bs' hm => h off' bs' (List.mem_cons_of_mem _ hm))
 
 /-- **`copies_equal_preserved`** (log-replay level): applying the records of a mirrored FAT update
-    (`MirroredWrite`: `data` at relative offset `rel` of each of the `k+1` copies, plus records `st` that do not touch
+    (`MirroredWrite`: `data` at relative offset `rel` of each of the `k+1` copies, after records `st` that do not touch
     the copies — the status byte) to bytes whose copies are equal leaves the copies equal -/
 theorem copies_equal_preserved (B Z rel k : Nat) (data : List Nat) (hfit : rel + data.length ≤ Z) (st : List LogItem)
     (hst : ∀ off bs, LogItem.write off bs ∈ st → off + bs.length ≤ B ∨ B + (k + 1) * Z ≤ off)
     (g : Nat → Nat) (hg : CopiesEqual B Z (k + 1) g) :
-    CopiesEqual B Z (k + 1) (replay g (mirrorLog (B + rel) Z data k 1 ++ (st ++ [.write (B + rel) data]))) := by
+    CopiesEqual B Z (k + 1) (replay g (mirrorLog (B + rel) Z data k 1 ++ (.write (B + rel) data :: st))) := by
   have value : ∀ i, i < k + 1 → ∀ x, x < Z →
-      replay g (mirrorLog (B + rel) Z data k 1 ++ (st ++ [.write (B + rel) data])) (B + i * Z + x) =
+      replay g (mirrorLog (B + rel) Z data k 1 ++ (.write (B + rel) data :: st)) (B + i * Z + x) =
         if rel ≤ x ∧ x < rel + data.length then data.getD (x - rel) 0 else g (B + i * Z + x) := by
     intro i hi x hx
-    rw [replay_append, replay_mirrorLog B Z rel data hfit k 1 _ i x hx, replay_append]
-    have hout : replay (replay g [.write (B + rel) data]) st (B + i * Z + x) =
-        replay g [.write (B + rel) data] (B + i * Z + x) := by
+    rw [replay_append, replay_mirrorLog B Z rel data hfit k 1 _ i x hx]
+    have hout : replay g st (B + i * Z + x) = g (B + i * Z + x) := by
       apply replay_outside
       intro off bs hm
       have := Nat.mul_le_mul_right Z (show i + 1 ≤ k + 1 from hi)
       rw [Nat.add_mul, Nat.one_mul] at this
       rcases hst off bs hm with h | h <;> omega
-    rw [hout]
     simp only [replay, applyRec]
+    rw [hout]
     have hc := cover_iff (B := B) (j := 0) (i := i) hx hfit
     simp only [Nat.zero_mul, Nat.add_zero] at hc
     by_cases hin : rel ≤ x ∧ x < rel + data.length
@@ -516,12 +531,12 @@ theorem fat_set_copies_equal {s0 : DiskSlice} {d d' : Dev} (h : MirroredWrite s0
       obtain ⟨rfl, rfl⟩ := hm
       simp only [List.length_singleton]; exact hstat
     · cases hm
-  refine ⟨mirrorLog (s0.beginOff + rel) s0.size data k 1 ++ (statusExtra s0.viaFs d.fs ++ [.write (s0.beginOff + rel) data]),
+  refine ⟨mirrorLog (s0.beginOff + rel) s0.size data k 1 ++ (.write (s0.beginOff + rel) data :: statusExtra s0.viaFs d.fs),
     by rw [hw]; simp, ?_, ?_⟩
   · rw [hk] at hg ⊢
     exact copies_equal_preserved _ _ _ _ _ hfit _ hst g hg
   · rw [hk] at hg ⊢
-    rw [List.map_append, List.map_append, mirrorLog_map_norm]
+    rw [List.map_append, List.map_cons, mirrorLog_map_norm]
     refine copies_equal_preserved _ _ _ _ (data.map (· % 256)) (by rw [List.length_map]; exact hfit)
       ((statusExtra s0.viaFs d.fs).map LogItem.norm) ?_ g hg
     intro off bs hm
@@ -859,11 +874,11 @@ def dev : Dev := { img := Img.empty 8192, fs := fs16 }
 end C10ex
 
 /-- hypotheses of `slice_write_mirrors`/`slice_bounds_write` hold of the example, and the write does what they say:
-    two bytes at offset 6 of both copies, the status byte after the first -/
+    two bytes at offset 6 of both copies, the status byte BEFORE the first -/
 example : C10ex.slice.offset ≤ C10ex.slice.size ∧ 0 < C10ex.slice.mirrors ∧
     C10ex.slice.beginOff + C10ex.slice.mirrors * C10ex.slice.size ≤ C10ex.dev.img.size ∧
     (run (C10ex.slice.write [170, 187]) C10ex.dev).2.log =
-      [.write 1030 [170, 187], .write 37 [1], .write 518 [170, 187]] := by decide +kernel
+      [.write 1030 [170, 187], .write 518 [170, 187], .write 37 [1]] := by decide +kernel
 
 /-- `fatSliceOf` of the example volume is that window; the status byte (0x25) lies before it -/
 example : fatSliceOf C10ex.fs16 = { beginOff := 512, size := 512, mirrors := 2, viaFs := true } ∧
